@@ -16,7 +16,7 @@ func init() {
 	register(&Prop{
 		ID:          "C16",
 		Title:       "Message comparers are sound equivalences",
-		Explanation: "R16.1 the default comparer mirrors proto.Equal structurally: compare handles nil and validity, equalMessage rejects different descriptors, stops at the first unequal field, requires the field to be set on both sides, compares field counts and unknown fields; equalField dispatches lists and maps before scalars and its change_time exception needs both the field name and a containing message called Change; equalValue covers every protoreflect.Kind with the accessor of that kind (NaN equal to NaN for floats) and consults the value comparer first, honouring its ok flag. R16.2 each tolerance comparer returns ok=false on every path where the field is not of its own kind / message type. R16.3 whenever a tolerance comparer decides (ok=true) its verdict is a constant, an agreement of validity, or `absdiff(x, y) <=/< T` where absdiff is one of the accepted absolute-difference idioms over one quantity derived from x and one derived from y, and T depends on x and y only through min/max of the same function of both (reflexive and symmetric by form). DurationValueWithinP does not have this form: recorded known finding F-15. R16.4 And/Or return at the first false/true and true/false after the loop; ValueAnd/ValueOr propagate ok only from comparers that spoke. R16.5 the resources apply the equivalence to projected values and skip only on its verdict (shared with R04.5/R04.6). Does NOT decide agreement with proto.Equal on all message pairs, tolerance arithmetic, NaN and unknown-field corner cases.",
+		Explanation: "R16.1 the default comparer mirrors proto.Equal structurally: compare handles nil and validity, equalMessage rejects different descriptors, stops at the first unequal field, requires the field to be set on both sides, compares field counts and unknown fields; equalField dispatches lists and maps before scalars and its change_time exception needs both the field name and a containing message called Change; equalValue covers every protoreflect.Kind with the accessor of that kind (NaN equal to NaN for floats) and consults the value comparer first, honouring its ok flag. R16.2 each tolerance comparer returns ok=false on every path where the field is not of its own kind / message type. R16.3 whenever a tolerance comparer decides (ok=true) its verdict is a constant, an agreement of validity, or `absdiff(x, y) <=/< T` where absdiff is one of the accepted absolute-difference idioms over one quantity derived from x and one derived from y, and T depends on x and y only through min/max of the same function of both (reflexive and symmetric by form). DurationValueWithinP does not have this form: recorded known finding F-15. R16.4 And/Or return at the first false/true and true/false after the loop; ValueAnd/ValueOr propagate ok only from comparers that spoke. R16.5 the resources apply the equivalence to projected values and skip only on its verdict (shared with R04.5/R04.6). R16.1 equalMessage: two passes whose per-field tables are both-populated -> equalField, one side only and zero-comparable (value comparer configured, singular field without presence) -> equalValue against the zero value, otherwise unequal. R16.5 also: the equivalence is consulted only inside Pull subscriptions. Does NOT decide agreement with proto.Equal on all message pairs, tolerance arithmetic, NaN and unknown-field corner cases.",
 		Assumptions: []string{"math.Abs/Min/Max, time.Time.Sub/Before have their mathematical meaning"},
 		Run:         runC16,
 		Controls: []Control{
